@@ -21,8 +21,9 @@ Verdicts.  A model/code disagreement is `found_input=False` (broken corresponden
 judge of c01 sees the same steps).  Model-free property oracles, `found_input=True`:
 (frame) a member that `_delegate` does not pick for any path argument and that holds no path below
 an argument is unchanged; (closed) a closed MountFS raises and changes nothing; (nul) a path that
-contains NUL is refused with InvalidCharsInPath — the one class that FAILS on the real code is the
-open finding `C01/mountfs-nul-normalised-away` (findings/C01-mountfs-nul-normalised-away.md).
+contains NUL is refused with InvalidCharsInPath and nothing changes — the oracle that found
+`C01/mountfs-nul-normalised-away` (`exists('m1/z\\0/../f')` was True), FIXED in /repo 48e26ed
+(findings/applied/); it stays as the regression oracle.
 The `mount-in-mount` histories and the well-formed part of the directed corpus are also handed to
 the Ref-level judge of c01 (the property itself on the glued view).
 """
@@ -35,7 +36,6 @@ import vlib
 import fsharness as H
 from props import _stateful as S
 
-SIG_NUL = "C01/mountfs-nul-normalised-away"
 BULK_DIR = ("copydir", "movedir")
 
 # kind -> (auto_close, [(mount path, member spec)]) ; member spec: "m" | ("n", [(path, "m"), ...])
@@ -351,13 +351,21 @@ def oracle(rep, ms):
                           found_input=True, signature="C01/mount-closed/%s" % op[0])
         return
     if _has_nul(op):
-        # FS.validatepath: a path with an invalid character is refused, whatever it normalises to
-        if ms.impl[:2] != ("err", "InvalidCharsInPath") and not (ms.impl[0] == "err" and ms.impl[1] in
-                                                                  ("IllegalBackReference", "ValueError")):
-            rep.violation(_case(ms), "MountFS (%s).%s%r with a NUL in the path -> %r (members changed: %r); every other "
-                          "filesystem refuses it with InvalidCharsInPath: _delegate normalises the NUL component away "
-                          "before a member sees the path" % (ms.kind, op[0], op[1:], ms.impl[:2], changed),
-                          found_input=True, signature=SIG_NUL)
+        # FS.validatepath: a path with an invalid character is refused, whatever it normalises to and whichever
+        # filesystem it would be routed to (MountFS._delegate looks at the raw path first since /repo 48e26ed; before,
+        # `exists('m1/z\0/../f')` was True: the fixed finding C01/mountfs-nul-normalised-away).  Class-only exceptions
+        # of fs/base.py and fs/mountfs.py that look at another argument first: `openbin` validates its mode
+        # (ValueError), `FS.removetree` normalises its path (IllegalBackReference for a path that also climbs).
+        ok_cls = {"InvalidCharsInPath"}
+        if op[0] == "openbin":
+            ok_cls.add("ValueError")
+        if op[0] == "removetree":
+            ok_cls.add("IllegalBackReference")
+        if ms.impl[0] != "err" or ms.impl[1] not in ok_cls or changed:
+            rep.violation(_case(ms), "MountFS (%s).%s%r with a NUL in the path -> %r (members changed: %r); every filesystem "
+                          "refuses such a path with InvalidCharsInPath and changes nothing"
+                          % (ms.kind, op[0], op[1:], ms.impl[:2], changed),
+                          found_input=True, signature="C01/mount-nul/%s" % op[0])
         return
     # frame: only members that own a path argument, or hold something below one, may change
     if ms.kind in REF_KINDS:
@@ -494,7 +502,10 @@ def _directed_ops_mount():
             ("exists", "z\0/../.."), ("remove", "m1/z\0/../f"), ("removedir", "m1/z\0/../d"), ("getinfo", "m1/z\0/.."),
             ("copy", "top", "m1/z\0/../n", True), ("move", "m1/z\0/../f", "n", True), ("makedirs", "m2/deep/z\0/../k", True),
             ("listdir", "m1/z\0/.."), ("openbin", "m1/z\0/../f", "zz"), ("removetree", "z\0/../../.."),
-            ("isempty", "m2/deep/\0/.."), ("touch", "m1/\0/../t"), ("copydir", "a", "m1/z\0/../c", True)]
+            ("isempty", "m2/deep/\0/.."), ("touch", "m1/\0/../t"), ("copydir", "a", "m1/z\0/../c", True),
+            ("removedir", "z\0/.."), ("removedir", "m2/deep/z\0/.."), ("removedir", "z\0/../.."), ("movedir", "m1/z\0/../d", "n", True),
+            ("makedir", "m2/deep/z\0/../k", False), ("settimes", "m1/z\0/../f"), ("appendbytes", "m1/z\0/../f", b"+"),
+            ("create", "m1/z\0/../n", True), ("gettype", "m2/z\0/../side"), ("listdir", "z\0/../m2/deep")]
     ops.append(("close",))
     return ops
 
@@ -670,11 +681,11 @@ def judge_mount_exact(rep, steps, drv, ref_judge=None, rng=None, n_hist=6, n_ops
         rep.nontrivial("mount-exact", ms.kind, ms.closed, ms.op, _enc_state(ms.pre))
         compare(rep, ms, r)
     # the property itself on the glued view: histories of this module on the MountFS-in-MountFS and the directed
-    # steps that stay clear of the fixtures, of NUL paths and of closed objects
+    # steps that stay clear of the fixtures and of closed objects (NUL paths included since /repo 48e26ed)
     if ref_judge is not None:
         dsteps = []
         for i, ms in enumerate(done):
-            if ms.kind not in REF_KINDS or ms.closed or ms.op[0] == "close" or _has_nul(ms.op):
+            if ms.kind not in REF_KINDS or ms.closed or ms.op[0] == "close":
                 continue
             if not (ms.directed or ms in own):
                 continue
